@@ -146,6 +146,7 @@ Definition model_agree (c : c16case) : bool :=
       && out_is' runs_eqb (overlapping_bins_for b2 e2) bins
   | CCsi ms depth b1 e1 b2 e2 bin bins =>
       out_is Z.eqb (csi_reg2bin b1 e1 ms depth) bin
+      && out_is Z.eqb (csigen_reg2bin (S (Z.to_nat depth)) b1 e1 ms depth) bin   (* the translation of the loop *)
       && out_is' runs_eqb (csi_reg2bins b2 e2 ms depth) bins
   end.
 
